@@ -17,8 +17,8 @@ The translator walks the AST with general rules; there is no per-method text.  W
 * objects are values of `pyv` (Lib/PyReg.v): None, csr.Field (width, access of the port it will create), the
   FieldAction it creates, dict / list (association list / list), FieldActionMap / FieldActionArray (carrying
   `_fields`), anything else.  `isinstance`, `len`, truthiness, `.items()`, `enumerate`, `d[k] = v`, `d[k]`,
-  `.values()`, `.append`, `Mapping.items()` (through the class's own translated __iter__ / __getitem__) are the
-  specified functions of Lib/PyReg.v.  Dict keys and path elements are `pykey` (string atom / int); string
+  `.values()`, `.append`, `for x in obj` (read as iteration over a list object), `Mapping.items()` (through the
+  class's own translated __iter__ / __getitem__) are the specified functions of Lib/PyReg.v.  Dict keys and path elements are `pykey` (string atom / int); string
   atoms stand for non-empty strings;
 * calls that leave the translated fragment are parameters of the generated definition (open recursion):
   `FieldActionMap(x)` -> new_map, `FieldActionArray(x)` -> new_arr, `x.flatten()` -> flatten_of (dynamic
@@ -1138,6 +1138,14 @@ def generate(repo):
         got = [ast.unparse(x) for x in find_func(tree, [c]).bases]
         if got != b:
             raise Untranslatable(f"bases of {c}: {got}")
+    # Mapping.items() is read as the mixin over the class's own __iter__ / __getitem__; iteration of a Register is
+    # its __iter__; truthiness / len of the collections is not used.  A class that starts to define these itself
+    # is no longer what the representation assumes.
+    for c, banned in (("FieldActionMap", {"items", "keys", "values", "get", "__contains__", "__bool__"}),
+                      ("FieldActionArray", {"__iter__", "__bool__"}), ("Register", {"__bool__", "__getattr__"})):
+        have = {ch.name for ch in find_func(tree, [c]).body if isinstance(ch, ast.FunctionDef)}
+        if have & banned:
+            raise Untranslatable(f"{c} defines {sorted(have & banned)}")
     out = ["(* GENERATED on every run by harness/translate7.py from /repo's current source. Do not edit. *)",
            "From Coq Require Import ZArith List Bool.", "From Soc Require Import Model.RegPack.",
            "From Soc Require Import Lib.Res Lib.PyReg.", "Import ListNotations.", "Open Scope Z_scope.", ""]
